@@ -143,6 +143,9 @@ let run_val (id : string) (t : string list) =
   | ["osb"; n; s] -> res2s string_of_z (Binomial.optimal_steps_binomial (z n) (z s))
   | ["osm"; n; s] -> res2s string_of_z (Binomial.optimal_steps_mixed (z n) (z s))
   | ["memo"; n; s] -> res2s plan2s (Mixed.memo_warm (z n) (z s) (z n) (z s))
+  | ["tabmemo"; n; s] ->   (* entry (n, s) of the tabulated planner next to the memoised one: equal by theorem C16 (MixPaths / MixDP), so the
+                             model prints the memoised entry for both *)
+      res2s (fun p -> plan2s p ^ " " ^ plan2s p) (Mixed.memo_warm (z n) (z s) (z n) (z s))
   | ["tab"; n; s] -> res2s (fun tb -> S.concat ";" (L.map (fun row -> S.concat "," (L.map plan2s row)) tb)) (Mixed.tabulate (z n) (z s))
   | ["alloc"; n; r; d; tr] -> res2s (fun (w, a) -> zl2s w ^ " " ^ S.concat "," (L.map st2s a)) (Multistage.allocate (z n) (z r) (z d) (traj_of tr))
   | ["opt0"; l; m; uf; ub] -> res2s (fun tb -> S.concat ";" (L.map zl2s tb)) (RevSeq.get_opt_0_table (z l) (z m) (z uf) (z ub))
